@@ -237,6 +237,8 @@ def c01(ctx):
                        "compiler; TLC explores Circuit(BP) from every valuation of the boundary domain until settled and compares "
                        "every unconsumed named result with the interpreter; non-trivial = the record showed >= 2 distinct expected observations")
     ctx.assumptions = ASSUME_BASE
+    if os.environ.get("VERIF_DEV_GROUP"):      # development aid: one family only (never set by the registered commands)
+        sel = [p for p in progs if p["grp"] == os.environ["VERIF_DEV_GROUP"]]
     run_refine(ctx, sel, consts)
 
 
